@@ -305,6 +305,15 @@ def mkEvOfTmpl (s : St) (t : Nat) : Ev :=
   { name := tm.name, success := tm.success, failure := tm.failure, complete := tm.complete,
     notify := tm.notify, successChans := tm.successChans, completeChans := tm.completeChans }
 
+/-- identity of a framework handler in the log: the waitEvent generator for the three
+    temporary handlers, the owning component otherwise -/
+def hkey (s : St) (hd : Handler) : Nat :=
+  match hd.kind with
+  | .waitEvent w => (s.waits.getD w { owner := 0, evObj := none, evName := ⟨0, []⟩, timeout := -1 }).task
+  | .waitDone w => (s.waits.getD w { owner := 0, evObj := none, evName := ⟨0, []⟩, timeout := -1 }).task
+  | .waitTick w => (s.waits.getD w { owner := 0, evObj := none, evName := ⟨0, []⟩, timeout := -1 }).task
+  | _ => hd.owner
+
 mutual
 
 /-- `self.stop(code)` (manager.py `stop`) on component `c` -/
@@ -356,7 +365,8 @@ def doAct : Nat → HCtx → Act → M (Option Outcome)
     | .kbdInt => return some .kbdInt
     | .timerNew t => timerNew fuel t; return none
     | .timerReset t =>
-      modify fun s => { s with timers := s.timers.modify t fun x => { x with expiry := s.clock + x.interval } }
+      modify fun s => { s with timers := s.timers.modify t fun x =>
+        if x.created then { x with expiry := s.clock + x.interval } else x }
       return none
 
 /-- run a plain (non-generator) body -/
@@ -377,11 +387,12 @@ def stepGen : Nat → Nat → M GenYield
     | .user e h owner rest step pc sd =>
       match rest with
       | [] =>
-        modify fun s => { s with gens := s.gens.set g (.user e h owner [] step pc sd) }
+        modify fun s => { s with gens := s.gens.set g .dead }
         return .stop
       | a :: rest' =>
         let setRest (r : Prog) (pcv : Option Bool) : M Unit :=
           modify fun s => { s with gens := s.gens.set g (.user e h owner r step pcv sd) }
+        let kill : M Unit := modify fun s => { s with gens := s.gens.set g .dead }
         match a with
         | .yld v => setRest rest' none; return .plain v
         | .call t target timeout catch_ =>
@@ -403,15 +414,15 @@ def stepGen : Nat → Nat → M GenYield
             task := gid, isCall := none, chanArg := target }] }
           setRest rest' (some catch_)
           return .sub w
-        | .ret _ => setRest [] none; return .stop      -- `return v` in a generator: StopIteration
+        | .ret _ => kill; return .stop      -- `return v` in a generator: StopIteration
         | _ =>
           setRest rest' none
           match ← doAct fuel ⟨owner, some e⟩ a with
           | none => stepGen fuel g
-          | some .raised => setRest [] none; return .raised
-          | some (.sysExit code) => setRest [] none; return .sysExit code
-          | some .kbdInt => setRest [] none; return .kbdInt
-          | some _ => setRest [] none; return .stop
+          | some .raised => kill; return .raised
+          | some (.sysExit code) => kill; return .sysExit code
+          | some .kbdInt => kill; return .kbdInt
+          | some _ => kill; return .stop
     | _ => return .stop
 
 /-- resume a user generator (after logging why) and name the step in the log -/
@@ -566,11 +577,12 @@ def processTask : Nat → Nat → Task → M Unit
                 let y ← resumeGenSilent fuel p
                 afterParent p y true
               else
-                modify fun s => { s with gens := s.gens.set p (.user pe ph powner [] step none true) }
-                let _ := rest
+                modify fun s => { s with gens := s.gens.set p .dead }
+                let _ := (rest, powner, step)
                 errorBranch true
             | _ => pure ()
           | none => errorBranch false
+      | .dead => stopIteration
       | .one v consumed =>
         if consumed then stopIteration
         else
@@ -599,14 +611,21 @@ def invoke : Nat → Nat → Nat → Nat → M Outcome
   | 0, _, _, _ => throw .fuel
   | fuel + 1, r, h, e => do
     let hd ← getH h
+    if hd.kind.code != 0 then logE (.hinv e hd.kind.code (hkey (← get) hd))
     match hd.kind with
     | .user p =>
       logE (.inv e h 0)
       let prog := (← get).progs.getD p []
       if prog.isGen then
         let g ← newGen (.user e h hd.owner prog 0 none false)
+        logE (.exit e h)
         return .gen g
-      else runActs fuel ⟨hd.owner, some e⟩ prog
+      else
+        let o ← tryCatch (runActs fuel ⟨hd.owner, some e⟩ prog) fun ex => do
+          logE (.exit e h)
+          throw ex
+        logE (.exit e h)
+        return o
     | .prepUnregComplete =>
       -- _on_prepare_unregister_complete(self, event, e, value): event.parent is the prepare_unregister
       doPrepareUnregisterComplete fuel hd.owner
@@ -668,11 +687,22 @@ def timerTick : Nat → Nat → Nat → M Unit
     match s.timers[t]? with
     | none => return
     | some tm =>
+      if !tm.created then return
       let now := s.clock
       if now ≥ tm.expiry then
         let cc ← getComp tm.comp
         if cc.pending then return
-        let _ ← fireTmplEv tm.comp (mkEvOfTmpl s tm.tmpl) tm.target 0
+        -- `self.fire(self.event, *self.channels)`: the same event object every time
+        let te ← match tm.ev with
+          | some te => pure te
+          | none => do
+            let te ← newEv (mkEvOfTmpl s tm.tmpl)
+            modify fun s => { s with timers := s.timers.modify t fun x => { x with ev := some te } }
+            pure te
+        let chans := match tm.target with
+          | some tg => [tg]
+          | none => [cc.chan]
+        fireRaw tm.comp te chans 0
         if tm.persist then
           modify fun s => { s with timers := s.timers.modify t fun x => { x with expiry := s.clock + x.interval } }
         else
@@ -691,7 +721,8 @@ def timerNew : Nat → Nat → M Unit
     match s.timers[t]? with
     | none => return
     | some tm =>
-      modify fun s => { s with timers := s.timers.modify t fun x => { x with expiry := s.clock + x.interval } }
+      if tm.created then return
+      modify fun s => { s with timers := s.timers.modify t fun x => { x with expiry := s.clock + x.interval, created := true } }
       register fuel tm.comp tm.parent
 
 /-- `_dispatcher(event, channels, remaining)` on root `r` -/
@@ -730,29 +761,40 @@ def dispatcher : Nat → Nat → Nat → Nat → M Unit
       let rc ← getComp r
       if remaining > 0 || rc.eq.len > 0 || !rc.running then reduceTimeLeft e 0
       else if !rc.tasks.isEmpty then reduceTimeLeft e (← get).timeoutTicks
-    let err ← handlerLoop fuel r e handlers false
+    let err ← handlerLoop fuel r e handlers false .none
     modComp r fun x => { x with currently := none }
     eventDone fuel r e err
 
-/-- the `for event_handler in event_handlers` loop; returns whether `err` is set -/
-def handlerLoop : Nat → Nat → Nat → List Nat → Bool → M Bool
-  | 0, _, _, _, _ => throw .fuel
-  | _, _, _, [], err => return err
-  | fuel + 1, r, e, h0 :: rest0, err => do
+/-- the `for event_handler in event_handlers` loop; returns whether `err` is set.
+    `stale` is the Python local `value`, which is *not* reset per iteration: after a handler
+    that raised KeyboardInterrupt / SystemExit the previous handler's result is applied again. -/
+def handlerLoop : Nat → Nat → Nat → List Nat → Bool → Outcome → M Bool
+  | 0, _, _, _, _, _ => throw .fuel
+  | _, _, _, [], err, _ => return err
+  | fuel + 1, r, e, h0 :: rest0, err, stale => do
     -- free choice among the handlers that share the head's priority: follow the tape
     let s ← get
     let p0 := (s.hs.getD h0 dfltHandler).prio
     let group := (h0 :: rest0).takeWhile (fun h => (s.hs.getD h dfltHandler).prio == p0)
     let h := match s.tape.head? with
       | some (.inv e' h' 0) => if e' == e && group.contains h' then h' else h0
+      | some (.hinv e' k o) =>
+        if e' == e then
+          (group.find? (fun h => let hd := s.hs.getD h dfltHandler; hd.kind.code == k && hkey s hd == o)).getD h0
+        else h0
       | _ => h0
     let rest := (h0 :: rest0).erase h
     modEv e fun x => { x with geHandler := some h }
     let o ← invoke fuel r h e
     let mut err := err
+    let mut value := o
     match o with
-    | .kbdInt => stopMgr fuel r none
-    | .sysExit code => stopMgr fuel r code
+    | .kbdInt =>
+      stopMgr fuel r none
+      value := stale
+    | .sysExit code =>
+      stopMgr fuel r code
+      value := stale
     | .raised =>
       err := true
       modEv e fun x => { x with val := { x.val with errors := true } }
@@ -763,18 +805,21 @@ def handlerLoop : Nat → Nat → Nat → List Nat → Bool → M Bool
       let x ← newEv { name := Name.exception, arg := e }
       let rcomp ← getComp r
       fireRaw r x [rcomp.chan] 0
-      setValue e .err
+    | _ => pure ()
+    -- `if value is not None:`
+    match value with
+    | .raised => setValue e .err
     | .gen g =>
       modEv e fun x => { x with waiting := x.waiting + 1, val := { x.val with promise := true } }
       registerTask r ⟨e, g, none⟩
     | .value v => setValue e (.val v)
-    | .none => pure ()
+    | _ => pure ()
     let ev ← getEv e
     if ev.name == Name.generateEvents then
       let rc ← getComp r
       if !rc.tasks.isEmpty then reduceTimeLeft e (← get).timeoutTicks
     if ev.stopped then return err
-    handlerLoop fuel r e rest err
+    handlerLoop fuel r e rest err value
 
 /-- `dispatchEvents` loop on root `r` -/
 def dispatchLoop : Nat → Nat → M Unit
@@ -800,6 +845,7 @@ def flush : Nat → Nat → M Unit
     let r ← rootOf c
     let rc ← getComp r
     let old := rc.flushing
+    if rc.eq.batch == 0 then logE (.batch rc.eq.queue.length)
     modComp r fun x => { x with flushing := true, eq := x.eq.begin }
     tryCatch (dispatchLoop fuel r) fun ex => do
       modComp r fun x => { x with flushing := old }
@@ -815,6 +861,8 @@ def tick : Nat → Nat → M Unit
       taskLoop fuel c cc.tasks
     let cc ← getComp c
     if cc.running then
+      -- loop overhead: every iteration of a running loop takes one clock tick
+      modify fun s => { s with clock := s.clock + 1 }
       let e ← newEv { name := Name.generateEvents, timeLeft := -1 }
       fireRaw c e [.star] 0
     let cc ← getComp c
